@@ -200,7 +200,14 @@ def gen_kwargs(rng, name, lazy=False):
         o = c15.build_rem(sub)
         import attr
 
-        return {a.name: getattr(o, a.name) for a in attr.fields(type(o)) if a.name != "id"}
+        kw = {a.name: getattr(o, a.name) for a in attr.fields(type(o)) if a.name != "id"}
+        # authorities and fetchers carry free-form metadata of their own: few distinct (type, url) /
+        # (name, version) keys, many different metadata
+        if rng.random() < 0.6:
+            kw["authority"] = attr.evolve(kw["authority"], metadata=gen_metadata(rng, nested=False))
+        if rng.random() < 0.6:
+            kw["fetcher"] = attr.evolve(kw["fetcher"], metadata=gen_metadata(rng, nested=False))
+        return kw
     if name == "ExtID":
         o = c15.build_extid(c15.gen_extid(rng))
         import attr
